@@ -164,7 +164,7 @@ func checkC09(r *mc.Report, thorough bool) {
 		depth = 6
 	}
 	r.Explore(mc.Config{Name: fmt.Sprintf("login-placements-d%d", depth), Prune: true, SplitDepth: 2,
-		Rule: fmt.Sprintf("explicit-state search over user placements: histories of %d writes over {root>G1, root>G2, G1>G2, root>U, G1>U, G2>U} x {live, deleted} (move, mirror, delete, re-add, delete/undelete containing groups); in every state: login (auth.user request and POST /v1/auth) with the right credentials, a wrong password, 15 near misses (case, blanks, prefix, longer, empty, another user's e-mail or password, SQL wildcards) and for the default admin, compared with reachability of the root through non-deleted edges; issued token validates; node listing within the subtrees of the user's live placements", depth)},
+		Rule: fmt.Sprintf("explicit-state search over user placements: histories of %d writes over {root>G1, root>G2, G1>G2, root>U, G1>U, G2>U} x {live, deleted} (move, mirror, delete, re-add, delete/undelete containing groups); in every state: login (auth.user request and POST /v1/auth) with the right credentials, a wrong password, 15 near misses (case, blanks, prefix, longer, empty, another user's e-mail or password, SQL wildcards) for a second user with the same e-mail and another password, and for the default admin, compared with reachability of the root through non-deleted edges; issued token validates; node listing within the subtrees of the user's live placements", depth)},
 		c09LoginBody(depth))
 	sh.CleanupTemplate()
 	r.Assume("HTTP handler driven through ServeHTTP (api.NewV1Handler with the store's authorizer and an auth token); header values are passed verbatim")
@@ -371,6 +371,12 @@ func c09LoginBody(depth int) mc.Body {
 		if err := client.SendNodePoints(inst.Nc, "U", u.ToPoints(), true); err != nil {
 			return mc.Outcome{Violation: "HARNESS: " + err.Error(), Key: "harness"}
 		}
+		// a second user with the SAME e-mail and another password, always attached below the root: each pair of
+		// credentials must log in its own user
+		u2 := data.User{ID: "U2", FirstName: "g", LastName: "m", Email: u.Email, Pass: "pw2"}
+		if err := client.SendNode(inst.Nc, data.NodeEdge{ID: "U2", Type: data.NodeTypeUser, Parent: root, Points: u2.ToPoints()}, ""); err != nil {
+			return mc.Outcome{Violation: "HARNESS: " + err.Error(), Key: "harness"}
+		}
 		state := map[edge]int{} // 0 absent, 1 live, 2 deleted
 		key := func() string {
 			var s []string
@@ -476,6 +482,23 @@ func c09LoginBody(depth int) mc.Body {
 			}
 			if !httpDone {
 				c09HTTPChecked.Store(key(), (*mc.Outcome)(nil))
+			}
+			// the namesake with the other password logs in as itself, whatever happens to U
+			if !httpDone {
+				n2, _ := client.UserCheck(inst.Nc, u2.Email, u2.Pass)
+				tok2 := ""
+				for _, n := range n2 {
+					if n.Type == data.NodeTypeJWT {
+						if p, ok := n.Points.Find(data.PointTypeToken, ""); ok {
+							tok2 = p.Text
+						}
+					}
+				}
+				req := httptest.NewRequest("GET", "http://x/", nil)
+				req.Header.Set("Authorization", "Bearer "+tok2)
+				if ok, uid := inst.Store.GetAuthorizer().Valid(req); tok2 == "" || !ok || uid != "U2" {
+					return keep(&mc.Outcome{Violation: fmt.Sprintf("placements {%s}: the second user with the same e-mail and its own password gets token=%v valid=%v user=%q (expected a token for U2)", key(), tok2 != "", ok, uid), Key: "login-wrong-user-for-shared-email"})
+				}
 			}
 			if nodes, _ := client.UserCheck(inst.Nc, "", ""); len(nodes) > 0 {
 				return &mc.Outcome{Violation: "login with empty credentials returned nodes in state " + key(), Key: "login-empty-credentials"}
